@@ -35,6 +35,8 @@ type c13Graph struct {
 	Reverse bool     `json:"reverse"`
 	Limit   int      `json:"limit"` // 0 = unbounded
 	Roots   []int    `json:"roots,omitempty"`
+	// ExtCancel: the caller's own context may be cancelled at any scheduling point (environment step "X")
+	ExtCancel bool `json:"extcancel,omitempty"`
 }
 
 func c13Name(i int) string { return "v" + strconv.Itoa(i) }
@@ -232,6 +234,7 @@ type c13Sched struct {
 	errSeen      bool
 	limit        int
 	errAt        map[int]bool
+	ctx          context.Context
 }
 
 var c13ErrVisitor = errors.New("visitor error")
@@ -291,7 +294,7 @@ func (s *c13Sched) visitor(_ context.Context, name string, _ types.ServiceConfig
 
 //go:noinline
 func c13CallWalk(s *c13Sched, g c13Graph) {
-	err := graph.InDependencyOrder(context.Background(), g.project(), s.visitor, g.options()...)
+	err := graph.InDependencyOrder(s.ctx, g.project(), s.visitor, g.options()...)
 	s.mu.Lock()
 	s.mDone = true
 	s.mRet = err
@@ -314,6 +317,7 @@ type c13Run struct {
 	Choices  []string `json:"-"`
 	Enabled  [][]string `json:"-"`
 	Steps    int      `json:"steps"`
+	ExtFired bool     `json:"extfired,omitempty"` // the caller's context was cancelled during the run
 	Debug    string   `json:"debug,omitempty"`
 }
 
@@ -345,6 +349,14 @@ func c13RunOne(g c13Graph, errAt map[int]bool, choose c13Chooser, maxSteps int) 
 	c13Mu.Lock()
 	defer c13Mu.Unlock()
 	s := &c13Sched{parked: map[int64]*c13Park{}, limit: g.Limit, errAt: errAt}
+	ctx, cancel := context.WithCancel(context.Background())
+	defer cancel()
+	s.ctx = ctx
+	var xG *c13G // pseudo goroutine: the owner of the caller's context
+	if g.ExtCancel {
+		xG = &c13G{gid: -7, role: "X", cur: &c13Park{gid: -7, step: "extCancel", key: -1}}
+	}
+	xFired := false
 	graph.VerifYield = s.yield
 	defer func() { graph.VerifYield = nil }()
 	run := &c13Run{}
@@ -540,6 +552,10 @@ func c13RunOne(g c13Graph, errAt map[int]bool, choose c13Chooser, maxSteps int) 
 				evs = append(evs, evt{m, &c13Park{step: "M.wait", key: -1}, -1})
 			}
 		}
+		if xFired {
+			xFired = false
+			evs = append(evs, evt{xG, &c13Park{step: "extCancel", key: -1}, -1})
+		}
 		if released != nil {
 			gr := released
 			_, isAlive := alive[gr.gid]
@@ -630,6 +646,9 @@ func c13RunOne(g c13Graph, errAt map[int]bool, choose c13Chooser, maxSteps int) 
 				parked = append(parked, gr)
 			}
 		}
+		if xG != nil && xG.cur != nil {
+			parked = append(parked, xG)
+		}
 		sort.Slice(parked, func(i, j int) bool { return c13RoleLess(parked[i].role, parked[j].role) })
 		if len(parked) == 0 {
 			run.Deadlock = true
@@ -664,6 +683,17 @@ func c13RunOne(g c13Graph, errAt map[int]bool, choose c13Chooser, maxSteps int) 
 		run.Steps++
 		p := gr.cur
 		gr.last, gr.cur = p, nil
+		if gr == xG {
+			// the owner of the context cancels it: synchronous, nothing of the traversal runs inside
+			s.mu.Lock()
+			lastSeq = s.seq
+			s.mu.Unlock()
+			cancel()
+			xFired = true
+			run.ExtFired = true
+			released = nil
+			continue
+		}
 		var err error
 		if p.step == "visit" && errAt[p.key] {
 			err = c13VisitErr{p.key}
